@@ -45,6 +45,15 @@ MAXV = 12        # witnesses kept per child
 # child side: enumeration
 
 
+ABORT_AFTER = 300
+
+
+class Abort(Exception):
+  def __init__(self, ctx):
+    super().__init__("too many violations")
+    self.ctx = ctx
+
+
 class Ctx:
   """Per-child state: universe, evaluator, counters, witnesses."""
 
@@ -72,6 +81,8 @@ class Ctx:
     if len(self.violations) < MAXV:
       w.update({"key": key, "universe": self.uname, "hashseed": self.hashseed})
       self.violations.append(w)
+    if self.nviol >= ABORT_AFTER:
+      raise Abort(self)   # a broken tree can make the term space explode: report what we have
 
   def first_diff(self, m1, m2, within=None):
     d = m1 ^ m2
@@ -99,6 +110,17 @@ def _argkinds(args):
 
 
 def check_construct(ctx, opname, args, exprs, container="list", fresh=False, count=True):
+  """Guard: any RecursionError while judging means some term has become cyclic (contains itself),
+  which only a constructor mutating an earlier-built term can cause."""
+  try:
+    return _check_construct(ctx, opname, args, exprs, container, fresh, count)
+  except RecursionError:
+    ctx.viol(f"{opname}(...): a term built by the public constructors has become cyclic (contains itself): "
+             "an earlier-built term was mutated by a constructor", expr=[opname, exprs], container=container)
+    return None
+
+
+def _check_construct(ctx, opname, args, exprs, container="list", fresh=False, count=True):
   """One call of And/Or on already-built terms; returns the result (or None).
 
   fresh: this (op, ordered argument list) is visited exactly once by the enumeration
@@ -131,6 +153,19 @@ def check_construct(ctx, opname, args, exprs, container="list", fresh=False, cou
     ctx.viol(f"{opname} raised {type(e).__name__} on terms built by the public constructors",
              expr=[opname, exprs], container=container, error=repr(e))
     return None
+  # the call must not change the meaning of the terms it was given (they were built by the
+  # public constructors too and are still in use)
+  for a, m0 in zip(args, masks):
+    try:
+      m1 = ev.shallow_mask(a)
+    except RecursionError:
+      m1 = None
+    if m1 != m0:
+      ctx.viol(f"{opname}(...) mutated one of its argument terms: an earlier-built term changed meaning",
+               expr=[opname, exprs], container=container, argument=repr(a)[:300],
+               before=m0, after=m1)
+      ev.memo.pop(id(a), None)
+      return None
   if opname == "And":
     want = ctx.u.full
     for m in masks:
@@ -141,6 +176,11 @@ def check_construct(ctx, opname, args, exprs, container="list", fresh=False, cou
       want |= m
   try:
     got = ev.mask(r, store=False)
+    bad = ev.malformed(r, deep=True)
+  except RecursionError:
+    ctx.viol(f"{opname}(...) produced a cyclic term (a term that contains itself): some earlier-built term "
+             "was mutated by a constructor", expr=[opname, exprs], container=container)
+    return None
   except TypeError as e:
     ctx.viol(f"{opname} returned something that is not a boolean term", expr=[opname, exprs],
              error=repr(e))
@@ -150,7 +190,6 @@ def check_construct(ctx, opname, args, exprs, container="list", fresh=False, cou
              f"(argument kinds: {_argkinds(args)})",
              expr=[opname, exprs], container=container, result=repr(r),
              assignment=ctx.first_diff(got, want), container_kind=container)
-  bad = ev.malformed(r, deep=True)
   if bad:
     ctx.viol(f"{opname}(...) result breaks the structural promise: "
              f"{_generic_shape(bad)}", expr=[opname, exprs], result=repr(r), detail=bad)
@@ -343,6 +382,16 @@ def sorted_terms(ctx, terms):
 
 
 def child_levels(arg):
+  try:
+    return _child_levels(arg)
+  except Abort as a:
+    ctx = a.ctx
+    ctx.count("aborted_after_many_violations")
+    return {"n": ctx.cases, "nontrivial": 0, "counters": ctx.c, "violations": ctx.violations,
+            "nviol": ctx.nviol, "samples": ctx.samples[:2], "info": {"aborted": True}, "fps": []}
+
+
+def _child_levels(arg):
   """Enumeration child.
 
   arg: universe, hashseed, seed, what in
